@@ -52,6 +52,31 @@ def eval_facade(case):
             viol.append(V(f"facade/{name}", f"Fluid.{name} = {np.asarray(got).tolist()} but the stand-alone correlation "
                           f"with the object's T={T}, api={api}, gravity={g}, GOR={gor}, salinity={sal} gives "
                           f"{np.asarray(want).tolist()}", case=case, tol=REL))
+    # history: the object's public attributes are reassigned one at a time on the SAME object (after the
+    # calls above); every method must follow the object's *current* attributes
+    for attr, new in (("temperature", T + 85.0), ("api_gravity", api + 6.0), ("gas_specific_gravity", g + 0.11),
+                      ("solution_gor_initial", gor * 1.4), ("salinity", sal + 4.0)):
+        setattr(fl, attr, new)
+        T2, api2, g2, gor2, sal2 = (fl.temperature, fl.api_gravity, fl.gas_specific_gravity,
+                                    fl.solution_gor_initial, fl.salinity)
+        wants = {
+            "water_FVF": [water.b_water_McCain(T2, q) for q in p],
+            "water_viscosity": [water.viscosity_water_McCain(T2, q, sal2) for q in p],
+            "gas_FVF": [gas.b_factor_DAK(T2, q, tpc, ppc) for q in p],
+            "gas_viscosity": [gas.viscosity_Sutton(T2, q, tpc, ppc, g2) for q in p],
+            "oil_FVF": [oil.b_o_Standing(T2, q, api2, g2, gor2) for q in p],
+            "oil_viscosity": [oil.viscosity_beggs_robinson(T2, q, api2, g2, gor2) for q in p],
+            "pressure_bubblepoint": oil.pressure_bubblepoint_Standing(T2, api2, g2, gor2),
+        }
+        for name, (call, _) in pairs.items():
+            got = call()
+            if not rel_eq(got, wants[name]):
+                viol.append(V(f"facade-after-reassignment/{name}", f"after fluid.{attr} = {new} on the same object, "
+                              f"Fluid.{name} = {np.asarray(got).ravel()[:3].tolist()}... but the stand-alone correlation "
+                              f"with the object's current attributes gives {np.asarray(wants[name]).ravel()[:3].tolist()}...",
+                              case=dict(case, reassigned=attr), tol=REL))
+                break
+    T, api, g, gor, sal = fl.temperature, fl.api_gravity, fl.gas_specific_gravity, fl.solution_gor_initial, fl.salinity
     # the object's attributes are not modified by use
     if (fl.temperature, fl.api_gravity, fl.gas_specific_gravity, fl.solution_gor_initial, fl.salinity) != (T, api, g, gor, sal):
         viol.append(V("facade/attributes-modified", "Fluid attributes changed after method calls", case=case))
@@ -207,4 +232,5 @@ def run(ctx):
 
 
 def replay(case):
+    case = {k: v for k, v in case.items() if k != "reassigned"}
     return evaluate(case)["violations"]
